@@ -437,7 +437,7 @@ class PipeOps(FullOps):
                  retain_graph_pure=isinstance(rg, TV) and rg.note == "flag",
                  create_graph=repr(vals.get("create_graph")), create_graph_origin=sorted(vals["create_graph"].origin) if isinstance(vals.get("create_graph"), TV) else None,
                  allow_unused=vals.get("allow_unused").v if isinstance(vals.get("allow_unused"), Const) else repr(vals.get("allow_unused")),
-                 vmapped=getattr(self, "in_vmap", 0) > 0)
+                 vmapped=getattr(self, "in_vmap", 0) > 0, loop_depth=len(self.loop_orders))
         if fn == "backward":
             return NONE
         inputs = vals.get("inputs")
